@@ -23,6 +23,7 @@ import (
 	"github.com/nsqio/nsq/internal/protocol"
 	"github.com/nsqio/nsq/internal/statsd"
 	"github.com/nsqio/nsq/internal/util"
+	"github.com/nsqio/nsq/internal/verif"
 	"github.com/nsqio/nsq/internal/version"
 )
 
@@ -330,11 +331,14 @@ func writeSyncFile(fn string, data []byte) error {
 	if err != nil {
 		return err
 	}
+	verif.CrashPoint("persist.tmpCreated")
 
 	_, err = f.Write(data)
+	verif.CrashPoint("persist.tmpWritten")
 	if err == nil {
 		err = f.Sync()
 	}
+	verif.CrashPoint("persist.tmpSynced")
 	f.Close()
 	return err
 }
@@ -358,6 +362,7 @@ func (n *NSQD) LoadMetadata() error {
 	if err != nil {
 		return fmt.Errorf("failed to parse metadata in %s - %s", fn, err)
 	}
+	verif.Ev("MetaLoaded", "doc", string(data))
 
 	for _, t := range m.Topics {
 		if !protocol.IsValidTopicName(t.Name) {
@@ -424,16 +429,21 @@ func (n *NSQD) PersistMetadata() error {
 	if err != nil {
 		return err
 	}
+	verif.Ev("MetaSnapshot", "doc", string(data))
+	verif.CrashPoint("persist.snapshot")
 	tmpFileName := fmt.Sprintf("%s.%d.tmp", fileName, rand.Int())
 
 	err = writeSyncFile(tmpFileName, data)
 	if err != nil {
 		return err
 	}
+	verif.CrashPoint("persist.beforeRename")
 	err = os.Rename(tmpFileName, fileName)
 	if err != nil {
 		return err
 	}
+	verif.Ev("MetaRenamed", "doc", string(data))
+	verif.CrashPoint("persist.renamed")
 	// technically should fsync DataPath here
 
 	return nil
@@ -465,10 +475,12 @@ func (n *NSQD) Exit() {
 	if err != nil {
 		n.logf(LOG_ERROR, "failed to persist metadata - %s", err)
 	}
+	verif.Ev("NExit", "stage", "persisted")
 	n.logf(LOG_INFO, "NSQ: closing topics")
 	for _, topic := range n.topicMap {
 		topic.Close()
 	}
+	verif.Ev("NExit", "stage", "topicsClosed")
 	n.Unlock()
 
 	n.logf(LOG_INFO, "NSQ: stopping subsystems")
@@ -502,6 +514,7 @@ func (n *NSQD) GetTopic(topicName string) *Topic {
 	}
 	t = NewTopic(topicName, n, deleteCallback)
 	n.topicMap[topicName] = t
+	verif.Ev("TMapAdd", "t", vt(t), "n", len(n.topicMap))
 
 	n.Unlock()
 
@@ -564,11 +577,16 @@ func (n *NSQD) DeleteExistingTopic(topicName string) error {
 	// we do this before removing the topic from map below (with no lock)
 	// so that any incoming writes will error and not create a new topic
 	// to enforce ordering
+	verif.Ev("TDeleteBegin", "t", vt(topic))
 	topic.Delete()
+	verif.Yield("topicdelete.afterDelete", vt(topic))
+	verif.CrashPoint("topicdelete.afterDelete")
 
 	n.Lock()
 	delete(n.topicMap, topicName)
+	verif.Ev("TMapDel", "t", vt(topic), "n", len(n.topicMap))
 	n.Unlock()
+	verif.CrashPoint("topicdelete.afterUnlink")
 
 	return nil
 }
@@ -578,7 +596,10 @@ func (n *NSQD) Notify(v interface{}, persist bool) {
 	// should not persist metadata while loading it.
 	// nsqd will call `PersistMetadata` it after loading
 	loading := atomic.LoadInt32(&n.isLoading) == 1
+	verif.Ev("NotifySpawn", "persist", persist && !loading)
 	n.waitGroup.Wrap(func() {
+		defer verif.Ev("NotifyDone")
+		verif.Yield("notify.beforeSend", nil)
 		// by selecting on exitChan we guarantee that
 		// we do not block exit, see issue #123
 		select {
@@ -587,6 +608,8 @@ func (n *NSQD) Notify(v interface{}, persist bool) {
 			if loading || !persist {
 				return
 			}
+			verif.Yield("notify.beforePersist", nil)
+			verif.CrashPoint("notify.beforePersist")
 			n.Lock()
 			err := n.PersistMetadata()
 			if err != nil {
